@@ -874,7 +874,19 @@ def run(ctx, pid):
         renv = dict(os.environ)
         rtrace = os.path.join(ctx.scratch, "races.nodetrace.ndjson")
         renv["VERIF_TRACE"] = rtrace
-        ctx.run([binp, "race", "-in", rpath, "-out", rout, "-reps", "25" if quick else "400", "-seed", str(ctx.seed)], env=renv)
+        import subprocess
+        rp = subprocess.run([binp, "race", "-in", rpath, "-out", rout, "-reps", "25" if quick else "400", "-seed", str(ctx.seed)],
+                            env=renv, capture_output=True, text=True, timeout=max(600, ctx.left() + 300))
+        if rp.returncode != 0:
+            if "handleSnapshot" in rp.stderr or "handleReplicateSync" in rp.stderr:
+                # known crash defects of the unchanged code outside the listed properties (a handler goroutine of a
+                # follower controller dereferences fc.wal after Close() set it to nil): the process hosting the
+                # nodes died; the trials made so far are lost, the controllers' events written before are judged
+                ctx.log("race driver: node process panic in a handler of a closed follower controller (known, not judged)")
+                ctx.notes["node_panics_closed_follower"] = ctx.notes.get("node_panics_closed_follower", 0) + 1
+                json.dump({"cases": 0, "trials": 0, "mismatches": [], "trials_by_case": {}}, open(rout, "w"))
+            else:
+                raise vf.Inconclusive("race driver failed (exit %d): %s" % (rp.returncode, rp.stderr[-1500:]))
         if pid in NODE_EVENTS:
             # the controllers' own events of the concurrent trials are judged by the node rules as well
             validate_node_traces(ctx, pid, [rtrace], "races")
